@@ -37,6 +37,10 @@ pub enum Op {
     Hex(u64),
     Forward(gen::PointSpec, u8),
     Inverse(u8, u8, f64, f64),
+    /// any public call with raw (possibly malformed) arguments: the error paths
+    Raw(super::c14::Call),
+    /// children of a coarse cell at resolution 29: a request every implementation must refuse
+    Refused(gen::CellSpec),
 }
 
 pub fn op_json(o: &Op) -> Value {
@@ -54,6 +58,8 @@ pub fn op_json(o: &Op) -> Value {
         Op::Hex(v) => json!({"op": "hex", "v": v}),
         Op::Forward(p, f) => json!({"op": "forward", "p": gen::point_json(p), "face": f}),
         Op::Inverse(f, k, rho, off) => json!({"op": "inverse", "face": f, "k": k, "rho": rho, "off": off}),
+        Op::Raw(c) => json!({"op": "raw", "call": super::c14::call_json(c)}),
+        Op::Refused(c) => json!({"op": "refused", "c": gen::cellspec_json(c)}),
     }
 }
 
@@ -73,6 +79,8 @@ pub fn op_from_json(v: &Value) -> Option<Op> {
         "hex" => Op::Hex(v["v"].as_u64()?),
         "forward" => Op::Forward(gen::point_from_json(&v["p"])?, v["face"].as_u64()? as u8),
         "inverse" => Op::Inverse(v["face"].as_u64()? as u8, v["k"].as_u64()? as u8, v["rho"].as_f64()?, v["off"].as_f64()?),
+        "raw" => Op::Raw(super::c14::call_from_json(&v["call"])?),
+        "refused" => Op::Refused(gen::cellspec_from_json(&v["c"])?),
         _ => return None,
     })
 }
@@ -93,6 +101,8 @@ pub fn ops() -> BoxedStrategy<Op> {
         1 => any::<u64>().prop_map(Op::Hex),
         4 => (pt(), prop_oneof![9 => 0u8..12, 1 => 12u8..26]).prop_map(|(p, f)| Op::Forward(p, f)),
         5 => (prop_oneof![9 => 0u8..12, 1 => 12u8..26], 0u8..10, 0.0f64..0.9, 0.01f64..0.99).prop_map(|(f, k, rho, off)| Op::Inverse(f, k, rho, off)),
+        4 => super::c14::calls().prop_map(Op::Raw),
+        1 => gen::cell_spec(-1, 7).prop_map(Op::Refused),
     ]
     .boxed()
 }
@@ -101,10 +111,10 @@ pub fn ops() -> BoxedStrategy<Op> {
 /// siblings, parent and child, the same point moved by a hair, the same call repeated): the shapes
 /// that expose a memo keyed on only part of its arguments.
 pub fn related_ops() -> BoxedStrategy<Vec<Op>> {
-    let anchors = (proptest::collection::vec(gen::cell_spec(1, 28), 3..=3), proptest::collection::vec(gen::point_spec([6, 4, 4, 2, 4, 20, 24, 18, 18]), 2..=2));
+    let anchors = (proptest::collection::vec(prop_oneof![3 => gen::cell_spec(1, 28), 1 => gen::cell_spec(27, 29)], 3..=3), proptest::collection::vec(gen::point_spec([6, 4, 4, 2, 4, 20, 24, 18, 18]), 2..=2));
     anchors
         .prop_flat_map(|(cells, points)| {
-            let one = (0usize..3, 0u8..8, 0u8..7, 0usize..2, 0u8..4, any::<u8>(), 0i32..=29).prop_map(move |(ci, tr, kind, pi, ptr, x, res)| {
+            let one = (0usize..3, 0u8..9, 0u8..7, 0usize..2, 0u8..4, any::<u8>(), 0i32..=29).prop_map(move |(ci, tr, kind, pi, ptr, x, res)| {
                 let mut c = cells[ci];
                 c.pos_class = 8; // uniform: pos = raw & mask, so related positions can be expressed on raw
                 match tr {
@@ -113,6 +123,12 @@ pub fn related_ops() -> BoxedStrategy<Vec<Op>> {
                     2 => c.quintant = (c.quintant + 1 + x % 4) % 5,
                     3 => c.raw ^= 1 + (x as u64 % 3),
                     4 => c.raw ^= (1 + (x as u64 % 3)) << (2 * (x as u32 % 6)),
+                    8 => {
+                        // same position except for one of the most significant digits
+                        let levels = (c.res - 1).max(1) as u32;
+                        let lvl = levels - 1 - (x as u32 % 3).min(levels - 1);
+                        c.raw ^= (1 + (x as u64 >> 2) % 3) << (2 * lvl);
+                    }
                     5 => {
                         c.res -= 1;
                         c.raw >>= 2;
@@ -144,7 +160,12 @@ pub fn related_ops() -> BoxedStrategy<Vec<Op>> {
                     _ => Op::Lookup(p, res),
                 }
             });
-            proptest::collection::vec(one, 2..40)
+            let with_errors = prop_oneof![
+                6 => one.clone(),
+                1 => super::c14::calls().prop_map(Op::Raw),
+                1 => gen::cell_spec(-1, 7).prop_map(Op::Refused),
+            ];
+            proptest::collection::vec(with_errors, 2..40)
         })
         .boxed()
 }
@@ -212,6 +233,12 @@ pub fn exec(op: &Op) -> Out {
             Ok(q) => Out::Bits(vec![q[0].to_bits(), q[1].to_bits()]),
             Err(e) => Out::Err(e),
         },
+        Op::Raw(c) => match super::c14::exec_raw(c) {
+            None => Out::Err("(skipped: fan-out beyond the bound)".into()),
+            Some(Ok(v)) => Out::Bits(v),
+            Some(Err(e)) => Out::Err(e),
+        },
+        Op::Refused(c) => ids(a5::cell_to_children(codec::encode(&c.cell()), Some(29))),
         Op::Inverse(f, k, rho, off) => {
             let g = std::f64::consts::PI / 5.0 * (*k as f64 + off);
             match api::inverse([rho * g.cos(), rho * g.sin()], *f) {
